@@ -4,7 +4,10 @@
     `incompatible_kind`, old-side members of it, skeleton shape, ExprFormatted fields)
 (C) model fdiff_m (parameter rules + default equality by the implementation's key)
         vs  griffe.find_breaking_changes on one-function modules produced by griffe.visit
-(O) model binds            vs  real CPython calls of the compiled definition (0..5 positionals, keyword subsets, repeated keywords)
+(O) model binds            vs  real CPython calls of the compiled definition (0..5 positionals, keyword subsets, repeated keywords),
+                               at module level and through K().f / K.f for instance, class and static methods
+(C) model h_run (list semantics of the Parameters container) vs the container after an edit history (iteration, raised errors,
+    look-up by name), then fdiff_m on the resulting lists vs find_breaking_changes on the edited objects
     model ast-key diff     vs  ast.dump inequality of the defaults (abstraction python ast -> model tree is injective)
     model dval             vs  eval() of closed integer arithmetic
     model witness calls    vs  real calls (a reported, non-excused breakage comes with a call old binds and new rejects)
@@ -34,7 +37,8 @@ LEVEL_TEXT = ("Theorems over all signatures and all calls (any number of positio
               "by old and rejected by new => something is reported) for every failure class of CPython's binder, modulo decidable known-gap "
               "predicates (F2, F4-F7) whose witnesses are proved by computation; with the proposed collision rule (fix commit prepared) only F2 "
               "remains, and every report of that rule is call-breaking. Kind tables, swallowed/incompatible-kind rules, old-side rules and the "
-              "skeleton of _function_incompatibilities are regenerated/checked from diff.py on every run; the model is tied to the code by an "
+              "skeleton of _function_incompatibilities are regenerated/checked from diff.py on every run; a parameter replaced or deleted through "
+              "the Parameters container is gone for look-up by name, hence reported as removed unless swallowed; the model is tied to the code by an "
               "exhaustive <=2-parameter sweep, random <=5-parameter pairs and a default-expression grammar, the binder model to real CPython calls.")
 LEVEL_NOTE = ("Trusted: Coq kernel, extraction, translator harness/translate/c10_tables.py, the harness abstraction source text -> model signature "
               "(python ast -> tree with interned tags; checked injective against ast.dump on every pair), CPython calls / ast / eval as authority. "
@@ -47,7 +51,9 @@ RULE = ("exhaustive well-formed signatures over names {a,b,c}, 5 kinds, default 
         "pairs + all pairs of a seeded 150-subset; thorough: all ordered pairs) x call shapes (0..5 positionals x keyword subsets of {a,b,c,y,z} "
         "up to size 3, plus repeated keywords); seeded random/mutated pairs of <=5-parameter signatures; pairs whose defaults come from an "
         "expression grammar (operators with/without grouping, calls, attributes, tuples, strings vs names, f-strings) mutated by leaf/operator/"
-        "regrouping(parenthesis insertion or removal in the source)/swap/wrap/retype edits; all ordered pairs of a catalogue of ~115 default forms. "
+        "regrouping(parenthesis insertion or removal in the source)/swap/wrap/retype edits; all ordered pairs of a catalogue of ~115 default forms; "
+        "the same signatures as instance / class / static methods of a class (calls through K().f / K.f); functions whose Parameters container "
+        "was edited before the comparison (histories of setitem by index/name, delitem, add, incl. failing operations, that keep a legal signature). "
         "A pair is non-trivial when some call binds old and not new, or something is reported, or a default changed; distinct by (old,new) source text")
 TRUSTED = ["translator harness/translate/c10_tables.py (whitelisted AST shapes of diff.py / expressions.py; fails closed)",
            "abstraction python ast -> model default tree (harness/props/c10.py:abstract), checked injective w.r.t. ast.dump on every explored pair"]
